@@ -183,7 +183,7 @@ pub fn run(rep: &mut Report) {
     let table = Arc::new(slot_keys());
     crate::c02::run_sharded(rep, n, 16, move |local, sub, rt| {
         // quick: a block of consecutive runs shares the seed of its history generator and walks the crash points
-        rt.block_on(run_one(local, sub, table.clone(), None));
+        crate::run_guarded!(rt, local, "C13", sub, 3_000_000u64, run_one(local, sub, table.clone(), None));
     });
     rep.floor("recoveries", if thorough { 2000 } else { 100 });
     rep.floor("recoveries_from_a_stale_snapshot", 50);
